@@ -1090,6 +1090,7 @@ pub fn project(name: &str, trace: &[Value]) -> Vec<Value> {
         "recvlimits" => recvlimits(trace),
         "acks" => crate::proj_ack::acks(trace),
         "routing" => crate::proj_c09::routing(trace),
+        "cids" => crate::proj_cid::cids(trace),
         "migration" => crate::proj_c15::migration(trace),
         "dgram" => crate::proj_c16::dgram(trace),
         "zerortt" => crate::proj_c17::zerortt(trace),
